@@ -108,3 +108,23 @@ r('rf-ctl-helper',
   props=['C06', 'C19'])
 
 REFACTORS = R
+
+# the five mode-independent clamps applied where the value is parsed; the mode-dependent one (cs) stays where the mode is final
+r('rf-clamp-while-parsing',
+  ('src/model/beatmap/decode.rs', "        hp_drain_rate = hp_drain_rate.clamp(0.0, 10.0);\n", ""),
+  ('src/model/beatmap/decode.rs', "        overall_difficulty = overall_difficulty.clamp(0.0, 10.0);\n        approach_rate = approach_rate.clamp(0.0, 10.0);\n\n        slider_multiplier = slider_multiplier.clamp(0.4, 3.6);\n        slider_tick_rate = slider_tick_rate.clamp(0.5, 8.0);\n", ""),
+  ('src/model/beatmap/decode.rs', "            mut hp_drain_rate,\n            mut circle_size,\n            mut overall_difficulty,\n            mut approach_rate,\n            mut slider_multiplier,\n            mut slider_tick_rate,\n",
+   "            hp_drain_rate,\n            mut circle_size,\n            overall_difficulty,\n            approach_rate,\n            slider_multiplier,\n            slider_tick_rate,\n"),
+  ('src/model/beatmap/decode.rs', "            DifficultyKey::HPDrainRate => state.difficulty.hp_drain_rate = value.parse_num()?,",
+   "            DifficultyKey::HPDrainRate => state.difficulty.hp_drain_rate = value.parse_num::<f32>()?.clamp(0.0, 10.0),"),
+  ('src/model/beatmap/decode.rs', "                state.difficulty.overall_difficulty = value.parse_num()?;", "                state.difficulty.overall_difficulty = value.parse_num::<f32>()?.clamp(0.0, 10.0);"),
+  ('src/model/beatmap/decode.rs', "                state.difficulty.approach_rate = value.parse_num()?;", "                state.difficulty.approach_rate = value.parse_num::<f32>()?.clamp(0.0, 10.0);"),
+  ('src/model/beatmap/decode.rs', "                state.difficulty.slider_multiplier = f64::parse(value)?;", "                state.difficulty.slider_multiplier = f64::parse(value)?.clamp(0.4, 3.6);"),
+  ('src/model/beatmap/decode.rs', "            DifficultyKey::SliderTickRate => state.difficulty.slider_tick_rate = f64::parse(value)?,",
+   "            DifficultyKey::SliderTickRate => state.difficulty.slider_tick_rate = f64::parse(value)?.clamp(0.5, 8.0),"),
+  props=['C06', 'C05'])
+# the guards of convert_ref as one tuple match (same order of tests, same outcomes)
+r('rf-convert-ref-tuple-match',
+  ('src/model/beatmap/mod.rs', "        if self.mode == mode {\n            return Ok(Cow::Borrowed(self));\n        } else if self.is_convert {\n            return Err(ConvertError::AlreadyConverted);\n        } else if self.mode != GameMode::Osu {\n            return Err(ConvertError::Convert {\n                from: self.mode,\n                to: mode,\n            });\n        }\n\n        let mut map = self.to_owned();",
+   "        match (self.mode, mode) {\n            (from, to) if from == to => return Ok(Cow::Borrowed(self)),\n            _ if self.is_convert => return Err(ConvertError::AlreadyConverted),\n            (GameMode::Osu, _) => {}\n            (from, to) => return Err(ConvertError::Convert { from, to }),\n        }\n\n        let mut map = self.to_owned();"),
+  props=['C07', 'C14', 'C19', 'C04', 'C02'])
